@@ -3,7 +3,7 @@
 From Coq Require Import List NArith ZArith Bool Lia ZifyBool ZifyN.
 From SNT Require Import Base.Outcome Encoder.Decimal Encoder.DecimalProofs Encoder.Utf8
   Encoder.VT Encoder.VTProofs Encoder.Encode Encoder.EncodeStream Encoder.Denote Encoder.EncodeProofs Encoder.EncodeSgrProofs
-  Gen.TabEncoder.
+  Encoder.Color256 Encoder.Color256Proofs Encoder.EncodeC20 Gen.TabEncoder.
 Import ListNotations.
 Local Open Scope N_scope.
 Arguments print : simpl never.
@@ -286,3 +286,16 @@ Proof.
   repeat (apply orb_prop in H; destruct H as [H|H]);
     apply N.eqb_eq in H; subst c; vm_compute; reflexivity.
 Qed.
+
+(* ---------- no panic with the colour reduction inside the model ---------- *)
+Theorem encode_c20_total cp c : is_ok (encode_c20 cp c) = true.
+Proof.
+  unfold encode_c20. destruct (cp_depth cp); cbn [bind]; try apply encode_total.
+  rewrite all_ok_pal. cbn [bind]. apply encode_total.
+Qed.
+
+Lemma encode_c20_eq cp c : encode_c20 cp c = encode pal256_exact gray4_exact cp c.
+Proof. unfold encode_c20. destruct (cp_depth cp); cbn [bind]; try reflexivity. rewrite all_ok_pal. reflexivity. Qed.
+
+Lemma pal256_exact_byte c : (pal256_exact c < 256)%N.
+Proof. destruct (pal256_exact_optimal c) as [H _]. lia. Qed.
